@@ -7,7 +7,7 @@ PREFIX = os.environ.get("WT_PREFIX", "/tmp/mut-")
 SUFFIX = os.environ.get("NAME_SUFFIX", "")
 CONFIRM = os.environ.get("CONFIRM_PREFIX", "/tmp/confirm_")
 ids = sys.argv[1:] or ["C%02d" % i for i in range(1, 21)]
-extra_checks = {"C09-A": ["C14"]}
+extra_checks = {"C09-A": ["C14"], "C06-A9": ["C05"], "C20-B9": ["C01"]}
 for pid in ids:
     for v in ("A", "B"):
         src = f"{PREFIX}{pid}/_seeded/{v}"
